@@ -356,6 +356,15 @@ def run_check(pid, tier, seed, root=None, jobs=16, keep=False):
         print('INCONCLUSIVE property=%s reason=%s' % (pid, r))
     if rc == 0 and inconclusive:
         rc = 2
+    notes = dict(notes or {})
+    notes['known_finding_examples'] = {
+        fid: dict(occurrences=len(vs), mechanisms=sorted(set(
+            '%s/%s/%s' % (v.get('mechanism'), v.get('impl'), v.get('op'))
+            for v in vs))[:12],
+            example=json.dumps({k: vs[0][k] for k in vs[0]
+                                if k not in ('shard', 'case', 'history')},
+                               default=repr)[:700])
+        for fid, vs in sorted(known_hit.items())}
     _write_evidence(pid, mod, tier, seed, t0, evaluations, distinct, events,
                     samples, sorted(known_hit), inconclusive, builds,
                     len(unknown), nreports, notes, len(specs))
